@@ -50,6 +50,17 @@ claim('C20', 'other',
       '(3D->2D Euler/NS at arbitrary z, mu=k=0 NS->Euler, temporal amplitudes 0 transient->steady Euler, heat unsteady->steady and variable->constant).',
       FORMULA_NOTE, 'symbolic execution of LLVM IR + parameter substitution + SMT equality', 'DESIGN.md §4 C20')
 
+claim('C05', 'other',
+      'rans_sa: eval_q_u/eval_q_v == SA channel operator (f_v1, f_v2, modified-SA production limiter, r=min(.,10), g, f_w with the 1/6 power) applied by symbolic differentiation to eval_exact_u/v, decided path by path (library branches resolve the reference ite) with cut-point lemmas. '
+      'fans_sa_transient_free_shear: all five 3-argument sources against the FANS-SA operator on the documented transient fields, 2-argument sources == 3-argument at t=0, 2-argument exact fields == t=0 sections; the momentum and energy sources are KNOWN FINDINGS (f_v1 not differentiated; rho cv dT/dt missing) and are held to the as-built operator. '
+      'fans_sa_steady_wall_bounded: update() executed symbolically; continuity and both momentum sources == FANS-SA operator on the exact fields (quick); nu_sa and energy equations are attempted in the thorough tier only.',
+      FORMULA_NOTE + ' Transcendental atoms (log, exp, pow(.,-1/7), pow(.,1/6), sqrt, asin) are opaque with sound axioms. Wall-bounded nu_sa/energy identities that do not finish within the thorough budget are printed as UNDECIDED and are outside the claim.',
+      'symbolic execution of LLVM IR + symbolic differentiation + SMT (z3 nlsat) with path-wise ite resolution and proved cut-point lemmas', 'DESIGN.md §4 C05')
+claim('C06', 'other',
+      'euler_chem_1d: the four sources == two-species (N,N2) thermally-perfect reacting Euler operator on the exact fields with the user callback K_eq an UNINTERPRETED function (so every positive pure callback at once): species sources, their sum == d(rho u)/dx for every K_eq, '
+      'momentum (p = R_N T (rho_N + rho_N2/2)) and energy (5/2, 7/4 translational-rotational, N2 vibrational, formation enthalpies); the callback is invoked exactly once, on the exact temperature term.',
+      FORMULA_NOTE + ' pow(T,eta) and exp atoms opaque with axioms; admissibility T>0, rho_s>0, M_N,L,R != 0, K_eq>0.', 'symbolic execution of LLVM IR with an uninterpreted callback + SMT identity checking', 'DESIGN.md §4 C06')
+
 STRUCT_NOTE = ('Contract models of std::string/map/vector/ostream (libstdc++ internals not analysed); allocation succeeds; masa_map summarised by its C13 contract inside masa_init; '
                'trusted: clang-14 lowering, irdump+Engine A, z3 for path-condition feasibility; every reported counterexample is replayed on a g++ -O0 build through the public API.')
 claim('C07', 'other',
